@@ -254,6 +254,31 @@ def check_redispatch():
   return {'n': n, 'keys': n, 'viol': viol, 'sample': {'redispatch_steps': steps}}
 
 
+def check_requests_debug_logging():
+  """The frames must not depend on the logging configuration: a subset of the request product with DEBUG enabled on every
+  scales logger (records go to a null handler)."""
+  import logging
+  root = logging.getLogger('scales')
+  old_level, old_prop = root.level, root.propagate
+  h = logging.NullHandler()
+  logging.disable(logging.NOTSET)
+  root.setLevel(logging.DEBUG)
+  root.addHandler(h)
+  root.propagate = False
+  try:
+    ctxs = [{}, {'a': 'x'}, {'é': '日本', 'k' * 300: ''}]
+    res = check_requests([None, 'çlient'], ctxs, [None, 0.5025], ARGS)
+  finally:
+    root.removeHandler(h)
+    root.setLevel(old_level)
+    root.propagate = old_prop
+    logging.disable(logging.CRITICAL)
+  for v in res['viol']:
+    v['message'] = 'with DEBUG logging enabled: ' + v['message']
+  res['sample'] = {'debug_logging_cases': res['n']}
+  return res
+
+
 def check_unencodable():
   """Caller properties whose value is not text (None, a number, bytes, a list), alone and next to a text property: the call may
   be rejected, but whatever is written to the connection must still be a well-formed Tdispatch for that call."""
@@ -568,6 +593,7 @@ def main(tier, seed):
     out.append(explore.pmap('vt.checks.c13', 'check_two_services', [()], pool, seed)[0])
     out.append(explore.pmap('vt.checks.c13', 'check_unencodable', [()], pool, seed)[0])
     out.append(explore.pmap('vt.checks.c13', 'check_redispatch', [()], pool, seed)[0])
+    out.append(explore.pmap('vt.checks.c13', 'check_requests_debug_logging', [()], pool, seed)[0])
     nreq = sum(o['n'] for o in out)
     rep.part('frames through the real sinks', engine='E', cases=nreq, context_dicts=len(ctxs), client_ids=CLIENT_IDS,
              deadlines=deadlines, strings=[s[:8] for s in STRS])
